@@ -49,7 +49,7 @@ def EXHAUSTIVE(tier):
 
 def gen_cases(tier, seed):
     cases = [{"kind": "switches", "part": i} for i in range(8)]
-    cases += [{"kind": "values", "table": t} for t in ["validators", "enforcers", "parameters", "form_parameters", "pydantic", "inputfile"]]
+    cases += [{"kind": "values", "table": t} for t in ["validators", "enforcers", "parameters", "form_parameters", "pydantic", "inputfile", "uijson_two_parents"]]
     n = 140 if tier == "quick" else 2100
     for i in range(n):
         cases.append({"kind": "stateless", "target": ["inputfile", "inputvalidation", "parameter", "formparameter", "enforcerpool", "validators", "inputvalidation_oneof", "cross_forms", "inputfile_reassigned"][i % 9], "length": 8 + (i % 5) * 3 if tier == "quick" else 10 + (i % 5) * 5})
@@ -234,7 +234,7 @@ def do_values(case, rec, rng, d):
     s = scene(d)
     t = case["table"]
     try:
-        {"validators": values_validators, "enforcers": values_enforcers, "parameters": values_parameters, "form_parameters": values_form_parameters, "pydantic": values_pydantic, "inputfile": values_inputfile}[t](rec, s, rng)
+        {"validators": values_validators, "enforcers": values_enforcers, "parameters": values_parameters, "form_parameters": values_form_parameters, "pydantic": values_pydantic, "inputfile": values_inputfile, "uijson_two_parents": values_uijson_two_parents}[t](rec, s, rng)
     finally:
         s["ws"].close()
         s["ws2"].close()
@@ -423,6 +423,47 @@ def values_pydantic(rec, s, rng):
     judge_table(rec, table, "pydantic")
 
 
+def values_uijson_two_parents(rec, s, rng):
+    """The parameter-class stack (UIJson.validate): two data forms, each naming its own parent object form.  Data is accepted
+    only under the object its own form names as parent - not because it belongs to some object named by another form."""
+    from geoh5py.objects import Points
+    from geoh5py.ui_json.forms import BoolFormParameter, DataFormParameter, ObjectFormParameter
+    from geoh5py.ui_json.parameters import BoolParameter, StringParameter, WorkspaceParameter
+    from geoh5py.ui_json.ui_json import UIJson
+
+    ws = s["ws"]
+    a, a1 = s["A"], s["a1"]
+    b = Points.create(ws, vertices=np.zeros((4, 3)), name="second survey")
+    bx = b.add_data({"bx": {"values": np.arange(4.0)}})
+
+    def build(chan_a, chan_b):
+        def data_form(name, parent, value):
+            return DataFormParameter(name, label=name, parent=parent, association="Vertex", data_type="Float", value=value)
+
+        return UIJson({
+            "title": StringParameter("title", value="two surveys"),
+            "geoh5": WorkspaceParameter("geoh5", value=ws),
+            "run_command": StringParameter("run_command"),
+            "run_command_boolean": BoolFormParameter("run_command_boolean", label="run", value=False),
+            "monitoring_directory": StringParameter("monitoring_directory"),
+            "conda_environment": StringParameter("conda_environment"),
+            "conda_environment_boolean": BoolParameter("conda_environment_boolean"),
+            "workspace": WorkspaceParameter("workspace"),
+            "survey_a": ObjectFormParameter("survey_a", label="Survey A", mesh_type=[str(type(a).default_type_uid())], value=a),
+            "survey_b": ObjectFormParameter("survey_b", label="Survey B", mesh_type=[str(type(b).default_type_uid())], value=b),
+            "channel_a": data_form("channel_a", "survey_a", chan_a),
+            "channel_b": data_form("channel_b", "survey_b", chan_b),
+        })
+
+    table = [
+        ("UIJson:own-parents", lambda: build(a1, bx).validate(), True),
+        ("UIJson:first-channel-from-other-survey", lambda: build(bx, bx).validate(), False),
+        ("UIJson:second-channel-from-other-survey", lambda: build(a1, a1).validate(), False),
+        ("UIJson:channels-swapped", lambda: build(bx, a1).validate(), False),
+    ]
+    judge_table(rec, table, "uijson")
+
+
 def base_ui(s, with_one_of=False):
     from geoh5py.ui_json import templates
     from geoh5py.ui_json.constants import default_ui_json
@@ -575,6 +616,24 @@ def st_inputfile(case, rec, rng, s):
         if lv[0] == "reject":
             after = (canon({k: val_key(v) for k, v in long_.data.items()}), canon(form_snapshot(long_.ui_json)))
             rec.check("C15.rejected-mutates", before == after, op="InputFile.set_data_value", cls="InputFile", attr=key, detail=f"rejected value changed stored data/form")
+        if _i == case["length"] // 2:
+            # the parent object changes while the validators exist: a child added now is a member, a child removed now is not
+            late = s["A"].add_data({f"late{case['length']}": {"values": np.arange(s["A"].n_vertices, dtype=float)}})
+            gone = s["A"].add_data({f"gone{case['length']}": {"values": np.arange(s["A"].n_vertices, dtype=float)}})
+            for who, f in (("long-lived", long_), ("fresh", InputFile(ui_json=deepcopy_ui(base_ui(s)), validate=True))):
+                _ = f.data
+                v_before = verdict(lambda f=f: f.set_data_value("dat", gone))
+                rec.check("C15.verdict", v_before[0] == "accept", op="InputFile.set_data_value", cls="InputFile", attr="dat:child", detail=f"{who}: a child of the parent object was {v_before}")
+                f.set_data_value("dat", s["a1"])
+            s["ws"].remove_entity(gone)
+            for who, f in (("long-lived", long_), ("fresh", InputFile(ui_json=deepcopy_ui(base_ui(s)), validate=True))):
+                _ = f.data
+                v_late = verdict(lambda f=f: f.set_data_value("dat", late))
+                rec.check("C15.stateful", v_late[0] == "accept", op="InputFile", cls="InputFile", attr="dat:child-added-later", detail=f"{who}: a child added to the parent after earlier validations was {v_late}")
+                v_gone = verdict(lambda f=f: f.set_data_value("dat", gone))
+                rec.check("C15.stateful", v_gone[0] == "reject", op="InputFile", cls="InputFile", attr="dat:child-removed-later", detail=f"{who}: a child removed from the parent after earlier validations was {v_gone}")
+                verdict(lambda f=f: f.set_data_value("dat", s["a1"]))
+            rec.see("parent-children-changed-between-validations")
     rec.sample = {"target": "inputfile", "sequence": seq[:10]}
 
 
